@@ -76,6 +76,8 @@ def pytree_cases(quick):
         (["arr", "a b"], lambda ok: A((2, 3)) if ok else A((2, 2, 2)), 1),
         (["tuple", [["arr", "a"], ["arr", "b"]]], lambda ok: ["tuple", [A((2,)), A((3,))]] if ok else ["tuple", [A((2,)), A((4,))]], 1),
         (["arr", "?n a"], lambda ok: A((5, 2)) if ok else A((5, 3)), 1),
+        (["arr", "*w a"], lambda ok: A((4, 2)) if ok else A((4, 3)), 1),
+        (["arr", "*#w c"], lambda ok: A((1, 4, 6)) if ok else A((5, 6)), 1),
     ]
     structs = [None, "T", "S T", "T ...", "... T", "T U"]
     shapes = {
